@@ -2,6 +2,7 @@ package main
 
 import (
 	"go/constant"
+	"go/types"
 	"strings"
 
 	"golang.org/x/tools/go/ssa"
@@ -468,31 +469,37 @@ func ruleDropKeep(r *Run) {
 		return
 	}
 	sum := func(fn *ssa.Function) (string, bool) {
-		// truth table over (named, hasMatchers, allMatch)
+		// truth table over (named, hasMatchers, allMatch); the lookups may live in a shared helper
 		var named, hasM ssa.Value
 		var matchCall *ssa.Call
-		allInstrs(fn, func(in ssa.Instruction) {
-			switch x := in.(type) {
-			case *ssa.Lookup:
-				if !x.CommaOk {
-					return
-				}
-				f, _, _ := loadOfField(x.X)
-				for _, ref := range *x.Referrers() {
-					if e, ok := ref.(*ssa.Extract); ok && e.Index == 1 {
-						if f == "matchers" {
-							hasM = e
-						} else {
-							named = e
+		for _, gf := range funcGroup(fn) {
+			allInstrs(gf, func(in ssa.Instruction) {
+				switch x := in.(type) {
+				case *ssa.Lookup:
+					if !x.CommaOk {
+						return
+					}
+					mt, ok := x.X.Type().Underlying().(*types.Map)
+					if !ok {
+						return
+					}
+					_, isSlice := mt.Elem().Underlying().(*types.Slice)
+					for _, ref := range *x.Referrers() {
+						if e, ok := ref.(*ssa.Extract); ok && e.Index == 1 {
+							if isSlice {
+								hasM = e
+							} else {
+								named = e
+							}
 						}
 					}
+				case *ssa.Call:
+					if invokeIs(x, "Match") {
+						matchCall = x
+					}
 				}
-			case *ssa.Call:
-				if invokeIs(x, "Match") {
-					matchCall = x
-				}
-			}
-		})
+			})
+		}
 		if named == nil || hasM == nil || matchCall == nil {
 			return "", false
 		}
@@ -501,7 +508,7 @@ func ruleDropKeep(r *Run) {
 		for _, n := range []bool{false, true} {
 			for _, h := range []bool{false, true} {
 				for _, m := range []bool{false, true} {
-					w := &feWalker{Fn: fn, Assume: map[ssa.Value]constant.Value{named: constant.MakeBool(n), hasM: constant.MakeBool(h), matchCall: constant.MakeBool(m)}}
+					w := &feWalker{Fn: fn, Assume: map[ssa.Value]constant.Value{named: constant.MakeBool(n), hasM: constant.MakeBool(h), matchCall: constant.MakeBool(m)}, Inline: inlineHelpers(fn)}
 					res := map[string]bool{}
 					for _, e := range w.Run() {
 						if e.Cut {
